@@ -30,6 +30,7 @@ theorem spawnSafe_mono (p : List LOp) : ∀ (st st' : Nat → Bool), (∀ u, st 
     | acq => simp only [SpawnSafe] at h ⊢; exact ih _ _ hm h
     | rel => simp only [SpawnSafe] at h ⊢; exact ih _ _ hm h
     | work => simp only [SpawnSafe] at h ⊢; exact ih _ _ hm h
+    | ext => simp only [SpawnSafe] at h ⊢; exact ih _ _ hm h
 
 theorem init_inv (n : Nat) (progs : Nat → List LOp) (roots : List Nat)
     (hs : LockFreeWhileBlocking n progs roots = true) (hb : ∀ t, n ≤ t → progs t = []) : LInv n (init progs roots) := by
@@ -57,6 +58,7 @@ theorem holder_can_step {n : Nat} {s : LSt} (h : LInv n s) {t : Nat} (hd : 0 < (
     | rel => simp
     | spawn u => simp
     | work => simp
+    | ext => simp
 
 theorem exists_max (P : Nat → Prop) [DecidablePred P] (n : Nat) (hex : ∃ t, t < n ∧ P t) :
     ∃ t, t < n ∧ P t ∧ ∀ u, u < n → P u → u ≤ t := by
@@ -98,6 +100,7 @@ theorem no_deadlock {n : Nat} {s : LSt} (h : LInv n s)
     | rel => exact ⟨t, by simp [canStep, hst, hp]⟩
     | spawn u => exact ⟨t, by simp [canStep, hst, hp]⟩
     | work => exact ⟨t, by simp [canStep, hst, hp]⟩
+    | ext => exact ⟨t, by simp [canStep, hst, hp]⟩
     | wait u =>
       have hrk := h.ranked t
       have hsp := h.spawnSafe t
@@ -165,6 +168,9 @@ theorem step_inv {n : Nat} (s : LSt) (t : Nat) (h : LInv n s) : LInv n (step s t
       | work =>
         simp only [SafeFrom, SpawnSafe, Ranked] at hsafe hsp hrk
         exact inv_pop h t _ p hp hsafe hsp hrk
+      | ext =>
+        simp only [SafeFrom, SpawnSafe, Ranked, Bool.and_eq_true] at hsafe hsp hrk
+        exact inv_pop h t _ p hp hsafe.2 hsp hrk
       | wait u =>
         simp only [SafeFrom, SpawnSafe, Ranked, Bool.and_eq_true] at hsafe hsp hrk
         exact inv_pop h t _ p hp hsafe.2 hsp.2 hrk.2
@@ -332,5 +338,33 @@ theorem run_inv {n : Nat} (sched : List Nat) : ∀ s, LInv n s → LInv n (run s
   induction sched with
   | nil => intro s h; exact h
   | cons t ts ih => intro s h; exact ih _ (step_inv s t h)
+
+/-- a thread that is inside an external call (policy source) does not hold the lock -/
+theorem ext_lock_free {n : Nat} {s : LSt} (h : LInv n s) {t : Nat} {p : List LOp} (hp : (s.ths t).prog = .ext :: p) :
+    s.owner ≠ some t := by
+  intro ho
+  have hd := h.ownerDepth t ho
+  have hs := h.safe t
+  rw [hp] at hs
+  simp only [SafeFrom, Bool.and_eq_true, beq_iff_eq] at hs
+  omega
+
+/-- however long thread `t` stays inside an external call, a thread that wants the lock is not held up by it: either
+    the lock is free and it can take it, or the holder — which is not `t` — can continue -/
+theorem acq_progress_despite_ext {n : Nat} {s : LSt} (h : LInv n s) {t u : Nat} {p q : List LOp}
+    (hp : (s.ths t).prog = .ext :: p) (hu : (s.ths u).prog = .acq :: q) (hst : (s.ths u).started = true) :
+    ∃ v, v ≠ t ∧ canStep s v = true := by
+  cases ho : s.owner with
+  | none =>
+    refine ⟨u, ?_, by simp [canStep, hst, hu, ho]⟩
+    intro hut
+    subst hut
+    rw [hp] at hu
+    cases hu
+  | some o =>
+    refine ⟨o, ?_, holder_can_step h (h.ownerDepth o ho)⟩
+    intro hot
+    subst hot
+    exact ext_lock_free h hp ho
 
 end Rbacx.Locks
